@@ -38,8 +38,8 @@ VALID = {
     "Cookie": ['a=b; c="d\\073e"; f'],
     "Date": ["Wed, 21 Oct 2015 07:28:00 GMT", "Tue, 15 Nov 1994 08:12:31", "Tue, 15 Nov 1994 08:12:31 -0000", "15 Nov 1994 08:12",
              "1 Jan 24 99999999999999999999:00", "1 Jan 0001 00:00:00 +2300", "31 Dec 9999 23:59:59 -2300"],
-    "Referer": ["http://example.com/a?b=c"],
-    "Host": ["example.com:8080"],
+    "Referer": ["http://example.com/a?b=c", "http://a:b/", "http://u:p@/", "//[", "http://u:p@a:99999/x"],
+    "Host": ["example.com:8080", "a:b", "a:99999", "a:-1", "u:p@", "u:p@a:b", "[::1]:80", "[::1"],
     "Range": ["bytes=0-4,9-"],
     "If-Range": ['"abc"'],
     "If-None-Match": ['W/"abc", "def"'],
@@ -83,9 +83,15 @@ def accessors_case(iface, header, value):
         req = A.Request(asgi_scope("POST", "/p", [(header, value)], query="a=1&b=%ff"))
     for name in ("accepted_types", "content_type", "content_length", "cookies", "date", "referrer", "url", "query_params", "headers", "client"):
         try:
-            getattr(req, name)
+            val = getattr(req, name)
             if name == "accepted_types":
                 req.accepts("text/html")
+            if name in ("url", "referrer") and val is not None:
+                # what an application does with the URL object: read its components, print it
+                for comp in ("scheme", "netloc", "path", "query", "fragment", "username", "password", "hostname", "port"):
+                    getattr(val, comp)
+                repr(val)
+                str(val)
         except Exception as e:  # noqa
             c = classify(e)
             if c:
